@@ -1,0 +1,43 @@
+//go:build verif
+
+package statefulset
+
+import (
+	"k8s.io/client-go/util/workqueue"
+)
+
+// This file is compiled only with the build tag "verif". It adds exported
+// accessors used by the deterministic simulation harness; it changes no
+// behaviour and is absent from normal builds.
+
+// VerifSync runs one reconcile of key, exactly as a worker would.
+func (ssc *StatefulSetController) VerifSync(key string) error {
+	return ssc.sync(key)
+}
+
+// VerifProcessNextWorkItem runs one iteration of the worker loop.
+func (ssc *StatefulSetController) VerifProcessNextWorkItem() bool {
+	return ssc.processNextWorkItem()
+}
+
+// VerifQueue returns the controller's work queue.
+func (ssc *StatefulSetController) VerifQueue() workqueue.RateLimitingInterface {
+	return ssc.queue
+}
+
+// VerifSetQueue replaces the work queue (the harness wraps the original to
+// record queue operations).
+func (ssc *StatefulSetController) VerifSetQueue(q workqueue.RateLimitingInterface) {
+	ssc.queue = q
+}
+
+// VerifControl returns the StatefulSetControlInterface in use.
+func (ssc *StatefulSetController) VerifControl() StatefulSetControlInterface {
+	return ssc.control
+}
+
+// VerifSetControl replaces the StatefulSetControlInterface (the harness wraps
+// the original to record the snapshot handed to UpdateStatefulSet).
+func (ssc *StatefulSetController) VerifSetControl(c StatefulSetControlInterface) {
+	ssc.control = c
+}
